@@ -242,7 +242,11 @@ class Message:
         while not unpacker.is_done():
             avps.append(Avp.from_unpacker(unpacker))
 
+        command_flags = header.command_flags
         msg = msg_type(header, avps)
+        # typed commands reset the header flags to their own defaults when
+        # created; a decoded message keeps the flags it was received with
+        msg.header.command_flags = command_flags
 
         return msg
 
